@@ -262,3 +262,22 @@ void bad_set_order__flags_late(void) {
 	ctx->ep_is_endom = 0;
 	ctx->ep_is_super = 0;
 }
+
+/* INIT-RESET: the identifier is written by the selection only */
+void st_stale_select(int param) {
+	core_get()->ed_id = param;
+}
+
+void bad_init_reset__stale__core_init(void) {
+	ctx_t *ctx = core_get();
+	ctx->code = RLC_OK;
+	fp_zero(ctx->beta);
+}
+
+static void ok_reset__st_module_init(void) {
+	core_get()->ed_id = 0;
+}
+
+void ok_reset__core_init(void) {
+	ok_reset__st_module_init();
+}
